@@ -786,6 +786,45 @@ fn frag_token(f: &[u16; 13]) -> String {
     hex(&b)
 }
 
+/// a buffer reused for several names: `None` = `clear()`, `Some(f)` = `push(f)`
+fn lfn_impl_seq(size: usize, items: &[Option<[u16; 13]>]) -> Option<Vec<u8>> {
+    let items = items.to_vec();
+    catch_unwind(AssertUnwindSafe(move || {
+        let mut storage = vec![0u8; size];
+        let mut b = LfnBuffer::new(&mut storage);
+        for it in &items {
+            match it {
+                Some(f) => b.push(f),
+                None => b.clear(),
+            }
+        }
+        b.as_str().as_bytes().to_vec()
+    }))
+    .ok()
+}
+
+/// C17 with a reused buffer: after `clear()` nothing of the previous name may survive.
+fn lfn_clear_case(rep: &mut Report, batch: &mut Vec<(String, String, Vec<u8>)>, size: usize, first: &[[u16; 13]], second: &[[u16; 13]]) {
+    rep.cases += 1;
+    let mut items: Vec<Option<[u16; 13]>> = first.iter().map(|f| Some(*f)).collect();
+    items.push(None);
+    items.extend(second.iter().map(|f| Some(*f)));
+    let reused = lfn_impl_seq(size, &items);
+    let fresh = lfn_impl(size, second);
+    rep.oracle_checks += 1;
+    rep.count("lfn:clear-then-reuse");
+    if reused != fresh {
+        rep.violation("impl-vs-spec", "lfn-clear-leaks-state", &format!("size {size}: after clear() the buffer decodes the next name as {:?} but a fresh buffer gives {:?}", reused.as_ref().map(|b| hex_or_dash(b)), fresh.as_ref().map(|b| hex_or_dash(b))),
+            J::obj(vec![("size", J::i(size as i128)), ("first", J::s(first.iter().map(frag_token).collect::<Vec<_>>().join(";"))), ("second", J::s(second.iter().map(frag_token).collect::<Vec<_>>().join(";")))]));
+    }
+    let toks: Vec<String> = items.iter().map(|it| match it { Some(f) => frag_token(f), None => "C".to_string() }).collect();
+    let exp = match &reused {
+        None => "panic".to_string(),
+        Some(b) => format!("ok {}", hex_or_dash(b)),
+    };
+    batch.push((format!("lfn {size} {}", toks.join(";")), exp, vec![]));
+}
+
 /// push the fragments (in the order given = on-disk order) into a buffer of `size` bytes
 fn lfn_impl(size: usize, frags: &[[u16; 13]]) -> Option<Vec<u8>> {
     let frags = frags.to_vec();
@@ -953,6 +992,39 @@ pub fn c17(ctx: &Ctx) -> Report {
         }
     }
     flush_lfn(&mut rep, &mut model, &mut batch);
+    // a buffer reused across names (what a directory listing does): clear() between them
+    let n_clear = if ctx.thorough { 20_000 } else { 2_000 };
+    for _ in 0..n_clear {
+        let mk = |rng: &mut Rng, n: usize| -> Vec<[u16; 13]> {
+            (0..n).map(|_| {
+                let mut f = [0u16; 13];
+                for u in f.iter_mut() {
+                    *u = *rng.pick(&[0x41u16, 0x62, 0xE9, 0x20AC, 0xD83D, 0xDE00, 0xDC00, 0xD800]);
+                }
+                if rng.chance(1, 2) {
+                    let cut = rng.below(13) as usize;
+                    f[cut] = 0;
+                }
+                f
+            }).collect()
+        };
+        let n1 = rng.range(1, 3) as usize;
+        let first = mk(&mut rng, n1);
+        let n2 = rng.range(1, 3) as usize;
+        let second = mk(&mut rng, n2);
+        let size = *rng.pick(&[0usize, 4, 13, 40, 64, 255]);
+        lfn_clear_case(&mut rep, &mut batch, size, &first, &second);
+        if batch.len() > 2000 {
+            flush_lfn(&mut rep, &mut model, &mut batch);
+        }
+    }
+    flush_lfn(&mut rep, &mut model, &mut batch);
+    // directory level: long-name runs in every order, with gaps, duplicates, checksum mismatches,
+    // interleaved deleted slots, unpaired surrogates; listed through iterate_dir_lfn
+    let n_dirs = if ctx.thorough { 1500 } else { 120 };
+    for k in 0..n_dirs {
+        lfn_dir_case(ctx, &mut rng, &mut rep, &mut model, k);
+    }
     rep.distinct_nontrivial = rep.cases;
     // the modelled parts of `core`: decode_utf16 on unit sequences, encode_utf8 on scalars
     let mut reqs = Vec::new();
@@ -1380,4 +1452,185 @@ fn check_pairs_mount(rep: &mut Report, model: &mut Model, reqs: &mut Vec<String>
     }
     reqs.clear();
     exps.clear();
+}
+
+
+// ---------------------------------------------------------------------------------------------
+// C17 (directory level)
+// ---------------------------------------------------------------------------------------------
+
+fn lfn_slot(seq: u8, csum: u8, units: &[u16; 13]) -> [u8; 32] {
+    let mut d = [0u8; 32];
+    d[0] = seq;
+    d[11] = 0x0F;
+    d[13] = csum;
+    let pos = [1usize, 3, 5, 7, 9, 14, 16, 18, 20, 22, 24, 28, 30];
+    for (k, p) in pos.iter().enumerate() {
+        d[*p..*p + 2].copy_from_slice(&units[k].to_le_bytes());
+    }
+    d
+}
+
+fn short_slot(name: &[u8; 11], cluster: u16) -> [u8; 32] {
+    let mut d = [0u8; 32];
+    d[0..11].copy_from_slice(name);
+    d[11] = 0x20;
+    d[16..18].copy_from_slice(&0x4A8Fu16.to_le_bytes());
+    d[24..26].copy_from_slice(&0x4A8Fu16.to_le_bytes());
+    d[26..28].copy_from_slice(&cluster.to_le_bytes());
+    d
+}
+
+/// The FAT long-name rule, written from the specification: the long name of a short entry is carried
+/// by the LFN slots directly before it (among the in-use slots), numbered n|0x40, n-1, …, 1 in that
+/// order, all with the checksum of the short name.
+fn spec_long_name(slots: &[[u8; 32]], idx: usize) -> Option<Vec<u16>> {
+    let name: [u8; 11] = slots[idx][0..11].try_into().unwrap();
+    let want = mkfs::lfn_checksum(&name);
+    // in-use slots before idx, nearest first
+    let mut prev: Vec<&[u8; 32]> = slots[..idx].iter().filter(|s| s[0] != 0xE5 && s[0] != 0).collect();
+    prev.reverse();
+    let mut expect = 1u8;
+    let mut frags: Vec<[u16; 13]> = Vec::new();
+    for s in prev {
+        if s[11] & 0x0F != 0x0F {
+            return None;
+        }
+        let seq = s[0] & 0x1F;
+        if seq != expect || s[13] != want {
+            return None;
+        }
+        let pos = [1usize, 3, 5, 7, 9, 14, 16, 18, 20, 22, 24, 28, 30];
+        let mut f = [0u16; 13];
+        for (k, p) in pos.iter().enumerate() {
+            f[k] = u16::from_le_bytes([s[*p], s[*p + 1]]);
+        }
+        frags.push(f);
+        if s[0] & 0x40 != 0 {
+            // start of the run: done (name order = frags as collected: seq 1 first)
+            let mut units = Vec::new();
+            for f in &frags {
+                let n = f.iter().position(|&u| u == 0).unwrap_or(13);
+                units.extend_from_slice(&f[..n]);
+            }
+            return Some(units);
+        }
+        expect += 1;
+    }
+    None
+}
+
+fn lfn_dir_case(ctx: &Ctx, rng: &mut Rng, rep: &mut Report, model: &mut Model, k: usize) {
+    use crate::fsrun::*;
+    // build the slots of one directory
+    let mut slots: Vec<[u8; 32]> = Vec::new();
+    let nfiles = rng.range(2, 6) as usize;
+    for i in 0..nfiles {
+        let short = mkfs::short_name(&format!("L{}N{}.TXT", k % 10, i));
+        let csum = mkfs::lfn_checksum(&short);
+        let nfrag = rng.range(0, 3) as usize;
+        let mut frs: Vec<[u16; 13]> = Vec::new();
+        for j in 0..nfrag {
+            let mut f = [0u16; 13];
+            for (p, u) in f.iter_mut().enumerate() {
+                *u = match rng.below(12) {
+                    0 => *rng.pick(&[0xD83Du16, 0xDE00, 0xDC00, 0xD800]),
+                    1 => 0x20AC,
+                    2 => 0xE9,
+                    _ => 0x61 + ((i * 7 + j * 3 + p) % 26) as u16,
+                };
+            }
+            if j == nfrag - 1 && rng.chance(3, 4) {
+                let cut = rng.range(1, 12) as usize;
+                f[cut] = 0;
+                for u in f.iter_mut().skip(cut + 1) {
+                    *u = 0xFFFF;
+                }
+            }
+            frs.push(f);
+        }
+        // on disk: last fragment first, numbered n|0x40 … 1
+        let mut run: Vec<[u8; 32]> = Vec::new();
+        for j in (0..nfrag).rev() {
+            let seq = (j as u8 + 1) | if j == nfrag - 1 { 0x40 } else { 0 };
+            run.push(lfn_slot(seq, csum, &frs[j]));
+        }
+        // perturbations
+        match rng.below(10) {
+            0 if run.len() >= 2 => { run.remove(rng.below(run.len() as u64) as usize); }
+            1 if run.len() >= 2 => { run.swap(0, 1); }
+            2 if !run.is_empty() => { let d = run[0]; run.insert(0, d); }
+            3 if !run.is_empty() => { let j = rng.below(run.len() as u64) as usize; run[j][13] ^= 0x5A; }
+            4 if !run.is_empty() => { let j = rng.below(run.len() as u64 + 1) as usize; let mut del = short_slot(b"DELETED TMP", 9); del[0] = 0xE5; run.insert(j, del); }
+            5 if !run.is_empty() => { let j = rng.below(run.len() as u64) as usize; run[j][0] = (run[j][0] & 0x40) | 0x15; }
+            6 if !run.is_empty() => { run[0][0] &= !0x40; }
+            _ => {}
+        }
+        slots.extend(run);
+        slots.push(short_slot(&short, 3 + i as u16));
+        // sometimes a short-only entry right behind, with the SAME checksum as the previous one is impossible to
+        // force; the inheritance case is exercised by entries without own fragments following a run
+    }
+    let nodes: Vec<mkfs::Node> = slots.iter().map(|s| mkfs::Node::RawSlot { bytes: *s }).collect();
+    let geom = mkfs::Geometry { fat32: k % 3 == 0, bpc: 1, num_fats: 1, reserved: if k % 3 == 0 { 8 } else { 1 }, root_entries: 64, clusters: if k % 3 == 0 { 65525 } else { 4085 }, fat_extra_sectors: 0, lba_start: 1, tail_blocks: 0, root_cluster: 2, info: mkfs::InfoInit::Unknown, part_type: if k % 3 == 0 { 0x0C } else { 0x06 }, label: *b"LFN        ", use_total16: false };
+    let tree = vec![mkfs::Node::Dir { name: mkfs::short_name("LFNDIR"), lfn: None, attr: 0x10, children: nodes, ctime: (0x4A8F, 0), mtime: (0x4A8F, 0), extra_clusters: 0 }];
+    let img = mkfs::format(&[mkfs::PartSpec { slot: 0, geom, tree, dirty_free: None, keep_free: None }]);
+    let mut sess = Session::new(img.blocks.clone(), (4, 4, 1), 100);
+    let mut lines = load_image_lines(&img.blocks);
+    lines.push("mgr 4 4 1 100".into());
+    let mut expect: Vec<Option<String>> = vec![None; lines.len()];
+    let mut listing = String::new();
+    let bufsize = *rng.pick(&[0usize, 16, 40, 64, 255, 780]);
+    for op in [Op::OpenVolume(0), Op::OpenRoot(100), Op::OpenDir(101, "LFNDIR".into()), Op::ListLfn(102, bufsize), Op::ListLfn(102, 255), Op::List(102)] {
+        let o = sess.exec(&op);
+        lines.push(op.line());
+        expect.push(Some(o.line(false)));
+        if matches!(op, Op::ListLfn(_, 255)) {
+            listing = o.res.clone();
+        }
+        if o.res == "panic" {
+            rep.violation("impl-vs-spec", "lfn-listing-panic", &format!("`{}` panicked on a directory with perturbed long-name runs", op.show()), J::obj(vec![("case", J::s(format!("c17dir/{}/{k}", ctx.seed))), ("slots", J::Arr(slots.iter().map(|s| J::s(hex(s))).collect()))]));
+        }
+    }
+    rep.cases += 1;
+    rep.count("lfn:directory-listing");
+    // oracle: a long name is reported only for a complete, ordered run with the right checksum
+    let body = listing.strip_prefix("ok L ").unwrap_or("");
+    let shorts: Vec<usize> = (0..slots.len()).filter(|&i| slots[i][0] != 0xE5 && slots[i][11] & 0x0F != 0x0F).collect();
+    // entries 0,1 of the listing are "." and ".."
+    let items: Vec<&str> = body.split(';').filter(|s| !s.is_empty()).collect();
+    for (n, &si) in shorts.iter().enumerate() {
+        if let Some(item) = items.get(n + 2) {
+            rep.oracle_checks += 1;
+            let reported: Option<Vec<u8>> = item.split_once('=').map(|(_, h)| unhex(h));
+            let spec = spec_long_name(&slots, si);
+            match (&reported, &spec) {
+                (Some(bytes), None) => {
+                    rep.violation("impl-vs-spec", "lfn-reported-without-valid-run", &format!("entry {} is reported with long name {:?} although the slots before it are not a complete, ordered run with its checksum", hex(&slots[si][0..11]), String::from_utf8_lossy(bytes)),
+                        J::obj(vec![("case", J::s(format!("c17dir/{}/{k}", ctx.seed))), ("slots", J::Arr(slots.iter().map(|s| J::s(hex(s))).collect()))]));
+                }
+                (Some(bytes), Some(units)) => {
+                    let lossy = String::from_utf16_lossy(units);
+                    let lead_unpaired = units.first().map(|&u| (0xD800..=0xDFFF).contains(&u)).unwrap_or(false);
+                    if bytes.as_slice() != lossy.as_bytes() && !(lead_unpaired && lossy.as_bytes().ends_with(bytes)) && !(lossy.len() > 255 && bytes.is_empty()) {
+                        rep.violation("impl-vs-spec", "lfn-wrong-name", &format!("entry {} is reported with long name {:?}, its fragments spell {:?}", hex(&slots[si][0..11]), String::from_utf8_lossy(bytes), lossy),
+                            J::obj(vec![("case", J::s(format!("c17dir/{}/{k}", ctx.seed))), ("slots", J::Arr(slots.iter().map(|s| J::s(hex(s))).collect()))]));
+                    } else {
+                        rep.count("lfn:name-reported");
+                    }
+                }
+                (None, Some(_)) => rep.count("lfn:valid-run-not-reported"),
+                (None, None) => rep.count("lfn:no-name"),
+            }
+        }
+    }
+    let resp = model.batch(&lines);
+    for ((l, e), g) in lines.iter().zip(expect.iter()).zip(resp.iter()) {
+        if let Some(e) = e {
+            if &strip_reads(g) != e {
+                rep.violation("model-vs-impl", "correspondence:C17:list_lfn", &format!("`{}`: implementation `{}`, model `{}`", truncate(l, 60), truncate(e, 400), truncate(g, 400)), J::obj(vec![("case", J::s(format!("c17dir/{}/{k}", ctx.seed))), ("slots", J::Arr(slots.iter().map(|s| J::s(hex(s))).collect()))]));
+                break;
+            }
+        }
+    }
 }
